@@ -96,7 +96,9 @@ void harness(void)
 		s_pp[PL] = 0;
 		/* a path that is empty or consists of '/' only makes the real code form (and compare) the pointer path-1:
 		 * undefined behaviour outside C18, and CBMC's pointer order gives it no meaning */
+#ifndef ALLOW_EMPTY_PATH
 		ASSUME(nonslash);
+#endif
 		result = make_parent_directories(s_pp);
 		if (result == 0 && pp[0] == '/' && pp[1] == 0x1b && pp[2] == '/' && pp[3] == 0x80 && pp[4] == '/') WITNESS("failure message for the second component of an absolute path");
 		if (result == 1 && pp[1] == '/' && pp[3] == '/' && pp[4] != 0 && pp[4] != '/') WITNESS("two parents created");
